@@ -44,7 +44,7 @@ def main(pid=PID, extra_filter=None):
     shapes = list(shapes_one()) + FIXED
     two = shapes_two()
     if quick:
-        shapes += rnd.sample(two, 40)
+        shapes += rnd.sample(two, 24)
     else:
         shapes += two
         three = []
@@ -70,7 +70,7 @@ def main(pid=PID, extra_filter=None):
     jobs.append(('selftest:implies operands swapped', unit_sketch, (('bin', 'L', 'L'), 2, dict(
         mutate=('eval_recursive', 'BDDEnv::<symbols::NamedSymbol>::implies(copy _', 'BDDEnv::<symbols::NamedSymbol>::nand(copy _')))))
     rep = run_property(pid, lemma, ['and', 'or', 'not', 'eq', 'xor', 'ite', 'exists', 'all', 'aln', 'amn', 'exn', 'count_leq', 'count_gt'], [],
-                       bounds={'atoms_k': k, 'sketch_shapes': len(shapes), 'internal_nodes': '<= 2 (quick: all 1-node shapes, fixed nested shapes, %d seeded 2-node shapes; thorough: all 2-node shapes + seeded 3-node shapes)' % 40,
+                       bounds={'atoms_k': k, 'sketch_shapes': len(shapes), 'internal_nodes': '<= 2 (quick: all 1-node shapes, fixed nested shapes, %d seeded 2-node shapes; thorough: all 2-node shapes + seeded 3-node shapes)' % 24,
                                'lists': 'quantifier lists <= 2, counting lists <= 3', 'fixed_point_unrolling': '2^k+1 reference iterations, loop bound 2^k+3 in the real fp loop; convergence within the bound is assumed (property: convergent lfp/gfp) and the real loop must then terminate within it',
                                'labels': 'all 8 binary operators, both quantifier kinds, all 5 counting operators, the constant n as an unconstrained 64-bit usize, both fixed-point starts, every variable id any of the k atoms'},
                        assumptions=props.COMMON_ASSUME + ['FSEM (checks/fsem.py) is the documented meaning of the language'],
